@@ -1,6 +1,11 @@
 package runtime
 
-import "encoding/hex"
+import (
+	"encoding/hex"
+	"fmt"
+)
+
+func fmtPtr(p interface{}) string { return fmt.Sprintf("%p", p) }
 
 // VerifHandles returns, for every program that has a running VM, the hex
 // content hash of the source it was compiled from.  Added by the /verif overlay only.
@@ -10,6 +15,17 @@ func (r *Runtime) VerifHandles() map[string]string {
 	out := map[string]string{}
 	for name, h := range r.handles {
 		out[name] = hex.EncodeToString(h.contentHash)
+	}
+	return out
+}
+
+// VerifVMIDs returns the identity (pointer) of each running VM.
+func (r *Runtime) VerifVMIDs() map[string]string {
+	r.handleMu.RLock()
+	defer r.handleMu.RUnlock()
+	out := map[string]string{}
+	for name, h := range r.handles {
+		out[name] = fmtPtr(h.vm)
 	}
 	return out
 }
